@@ -283,3 +283,65 @@ Example C10_dispatch_example :
               r_dest_ok := true; r_conn_ok := true; r_remote_can := true; r_appends := false;
               r_sent := true |} = [RlErrFragmented].
 Proof. split; reflexivity. Qed.
+
+(* ================================================================ A10: the repaired SendSystemError
+   InboundCallResponse.SendSystemError now queues the error frame BEFORE doneSending shuts the
+   exchange down (Model/RespWire.v HSysErr: conn_send_syserr, then done_sending + commit); every
+   theorem above is proved over the repaired model, no statement changed.  New:
+
+   (1) without a connection failure ([stopped] = false: no protocol error, no network error), a
+       dispatched call whose exchange is still registered keeps the connection Active or
+       draining (StartClose): InboundClosed / Closed are reached only after its removal; *)
+From Verif Require Import Proofs.RespWireDrainP.
+
+Theorem C10_drain_state : forall prop ls st id c,
+  RespWire.run prop ls = Some st -> stopped st = false ->
+  get id (calls st) = Some c -> in_ex c = true -> h_pc c <> PAdmit -> h_pc c <> PDead ->
+  cst st = CActive \/ cst st = CStartClose.
+Proof. exact respwire_drain_state. Qed.
+Print Assumptions C10_drain_state.
+
+(* (2) so a handler's SendSystemError on such a call (response not failed, send buffer not full)
+       is enabled, queues exactly the frame (id, Err) and returns nil -- also when the call is
+       the last exchange of a draining connection, where the old order closed the connection
+       first and the frame was refused; *)
+Theorem C10_syserr_step : forall prop ls st id c,
+  RespWire.run prop ls = Some st -> stopped st = false ->
+  get id (calls st) = Some c -> h_pc c = PIdle -> in_ex c = true -> w_err c = false ->
+  exists st' c', RespWire.step st (HSysErr id false) = Some st' /\
+    RespWire.sent st' = RespWire.sent st ++ [(id, Err)] /\
+    get id (calls st') = Some c' /\ g_rets c' = g_rets c ++ [0] /\ g_dones c' = true.
+Proof. exact respwire_syserr_step. Qed.
+Print Assumptions C10_syserr_step.
+
+(* (3) and, inside C10's quantifier, whatever happens afterwards (ls2: the removal closes the
+       connection, the peer cuts it, deadlines, other calls): the frames of the id are those
+       sent before the call followed by EXACTLY ONE error frame -- an accepted word whose only
+       terminal frame is that error frame.  There is no "or the connection closed first"
+       alternative. *)
+Theorem C10_syserr_delivered : forall prop ls1 st1 id c ls2 st,
+  RespWire.run prop ls1 = Some st1 -> stopped st1 = false ->
+  get id (calls st1) = Some c -> h_pc c = PIdle -> in_ex c = true -> w_err c = false ->
+  RespWire.run prop (ls1 ++ HSysErr id false :: ls2) = Some st ->
+  (req_count id (ls1 ++ HSysErr id false :: ls2) <= 1)%nat ->
+  handler_ok id false (ls1 ++ HSysErr id false :: ls2) = true ->
+    proj id (RespWire.sent st) = proj id (RespWire.sent st1) ++ [Err] /\
+    wire_ok (proj id (RespWire.sent st)) = true /\
+    filter terminal (proj id (RespWire.sent st)) = [Err].
+Proof. exact respwire_syserr_delivered. Qed.
+Print Assumptions C10_syserr_delivered.
+
+(* Non-vacuity, and the case the repair is about: call 7 is the only exchange of a connection
+   that is draining after Close; its handler sends a system error: one error frame, result nil,
+   and the removal of the exchange closes the connection. *)
+Example C10_drain_last_example :
+  exists st1 c st,
+    RespWire.run false drain_last_labels = Some st1 /\ cst st1 = CStartClose /\ stopped st1 = false /\
+    get 7 (calls st1) = Some c /\ h_pc c = PIdle /\ in_ex c = true /\ w_err c = false /\
+    inbound_count (calls st1) = 1 /\
+    (req_count 7 (drain_last_labels ++ [HSysErr 7 false]) <= 1)%nat /\
+    handler_ok 7 false (drain_last_labels ++ [HSysErr 7 false]) = true /\
+    RespWire.run false (drain_last_labels ++ [HSysErr 7 false]) = Some st /\
+    proj 7 (RespWire.sent st) = [Err] /\ cst st = CClosed /\
+    (exists c', get 7 (calls st) = Some c' /\ g_rets c' = [0]).
+Proof. exact respwire_drain_last_example. Qed.
